@@ -35,7 +35,10 @@ def run_instance(inst):
     res = {"violations": [], "inconclusive": [], "counters": {}, "functions": [], "prims": {}}
     solver, vs, what = inst["solver"], inst["voltage_solver"], inst["what"]
     rng = np.random.default_rng(harness.seed() + 3)
-    spec = {"kind": "compartment"} if what in ("stability_function", "fixed_point") else {"kind": "branch", "ncomp": inst["n"]}
+    if what == "junction":
+        spec = {"kind": "cell", "parents": [-1, 0], "ncomps": list(inst["ncomps"])}
+    else:
+        spec = {"kind": "compartment"} if what in ("stability_function", "fixed_point") else {"kind": "branch", "ncomp": inst["n"]}
     try:
         E = cable.StepEncoding(spec, solver, vs, timeout=timeout)
     except cable.Refused as ex:
@@ -149,6 +152,8 @@ def run_instance(inst):
             extra = ex2
             decide([(xs, vstar)], "steady_state_fixed_point", f"fixed_point/{solver}/{vs}", {"dt"})
             extra = extra_saved
+    elif what == "junction":
+        junction(inst, E, res, viol, timeout, rng)
     else:
         # (b) uniform cable, cubic voltage profile, forward-Euler vector field
         n = inst["n"]
@@ -188,6 +193,114 @@ def run_instance(inst):
     return res
 
 
+def junction(inst, E, res, viol, timeout, rng):
+    """(b') a uniform cable cut into two branches in series whose compartments have different lengths h1, h2:
+    the traced branch-point terms couple the two compartments next to the cut with the series conductance of the two
+    half-compartments (flux form on the non-uniform grid, centre distance (h1+h2)/2) - decided on the code's own
+    conductance nodes (sub-DAGs of the step's output); that the step solves the rows built from these nodes is query L2
+    (same encoding as C01), repeated here so that the clause stands alone."""
+    topo, sv, solver, vs = E.topo, E.sv, E.solver, E.vs
+    n1, n2 = inst["ncomps"]
+    a_, b_ = n1 - 1, n1           # compartments next to the cut (branch 0 ends at the branch point, branch 1 starts there)
+    mem = list(topo.bps[0])
+    if sorted(mem) != [a_, b_]:
+        res["inconclusive"].append({"instance": inst, "query": "junction", "reason": f"unexpected branch point members {mem}"}); return
+    by_support = {}
+    for g in E.Gs:
+        by_support.setdefault(frozenset(sym.support(g)), []).append(g)
+    def uniq(sup):
+        c = list(dict.fromkeys(by_support.get(frozenset(sup), [])))
+        return c[0] if len(c) == 1 else None
+    E.g_of, E.w_of, E.unmatched = {}, {}, []
+    for (i, j) in topo.comp_edges:
+        for (p_, q_) in ((i, j), (j, i)):
+            E.g_of[("c2c", p_, q_)] = uniq({f"r{p_}", f"L{p_}", f"ra{p_}", f"cm{p_}", f"r{q_}", f"L{q_}", f"ra{q_}"})
+    for m in mem:
+        E.g_of[("bp2c", m, 0)] = uniq({f"r{m}", f"L{m}", f"ra{m}", f"cm{m}"})
+        E.w_of[(m, 0)] = uniq({f"r{m}", f"L{m}", f"ra{m}"})
+    if any(v is None for v in list(E.g_of.values()) + list(E.w_of.values())):
+        res["inconclusive"].append({"instance": inst, "query": "junction", "reason": "conductance nodes not identifiable by variable support"}); return
+    # L2: the step output solves the rows assembled from the code's own conductance nodes (atoms)
+    E.abstract(structured=False)
+    extra = E.stub_equations() if (vs == "jax.sparse") else []
+    rows = E.rows(E.xa)
+    q = smt.Query("C15/junction/L2", flatten_div=True); E.declare_positive(q, rows + extra)
+    for e_ in extra: q.add(e_)
+    q.add_any([sym.ne(r_, const(0)) for r_ in rows])
+    r2 = q.check(timeout=timeout)
+    res["counters"][f"junction_L2_{r2.status}"] = res["counters"].get(f"junction_L2_{r2.status}", 0) + 1
+    # J: effective coupling across the cut
+    r_, h1, h2, ra_, cm_ = var("r"), var("h1"), var("h2"), var("ra"), var("cm")
+    hs = [h1] * n1 + [h2] * n2
+    sub = {}
+    for i in range(E.NC):
+        sub.update({f"r{i}": r_, f"L{i}": hs[i], f"ra{i}": ra_, f"cm{i}": cm_})
+    kappa = r_ * lift(10 ** 7) / (lift(2) * ra_ * cm_)
+    pairs = []
+    for (x_, y_) in ((a_, b_), (b_, a_)):
+        g = sym.subst(E.g_of[("bp2c", x_, 0)], sub); wx = sym.subst(E.w_of[(x_, 0)], sub); wy = sym.subst(E.w_of[(y_, 0)], sub)
+        pairs.append((g * wy / (wx + wy), kappa / (hs[x_] * (hs[x_] + hs[y_]) / lift(2))))
+    # interior couplings of both branches: kappa / h^2
+    for (i, j) in topo.comp_edges:
+        for (p_, q_) in ((i, j), (j, i)):
+            pairs.append((sym.subst(E.g_of[("c2c", p_, q_)], sub), kappa / (hs[p_] * hs[p_])))
+    q = smt.Query("C15/junction/J", flatten_div=True)
+    for s_ in ("r", "h1", "h2", "ra", "cm"): q.declare(s_); q.add(f"(> {s_} 0.0)")
+    q.add_not_all_equal(pairs)
+    rj = q.check(timeout=timeout)
+    res["counters"][f"junction_J_{rj.status}"] = res["counters"].get(f"junction_J_{rj.status}", 0) + 1
+    if rj.status == "unsat" and r2.status == "unsat":
+        return
+    # replay on the real API: one step of the two-branch cable against the dense flux-form system on the non-uniform grid
+    def replay_at(env):
+        bad, detail = junction_concrete(inst, solver, vs, env)
+        if bad:
+            viol("junction_series_conductance", f"two-branch uniform cable ncomps={inst['ncomps']}: solver verdicts L2={r2.status} J={rj.status}; real API vs flux-form reference: { {k: v for k, v in detail.items() if k != 'inputs'} }", detail)
+        return bad
+    tried = []
+    if rj.model:
+        env = {k: min(max(float(rj.model.get(k, 1.0) or 1.0), 1e-2), 1e3) for k in ("r", "h1", "h2", "ra", "cm")}
+        if abs(env["h1"] - env["h2"]) < 1e-9: env["h2"] = env["h1"] * 3.0
+        tried.append(env)
+    tried.append({"r": 1.0, "h1": 25.0, "h2": 75.0, "ra": 100.0, "cm": 1.0})
+    tried.append({"r": 0.5, "h1": 60.0, "h2": 10.0, "ra": 150.0, "cm": 2.0})
+    for env in tried:
+        if replay_at(env):
+            return
+    res["inconclusive"].append({"instance": inst, "query": "junction", "reason": f"L2 {r2.status}, J {rj.status}; concrete replays agree with the reference"})
+
+
+def junction_concrete(inst, solver, vs, env, dtv=0.025):
+    import numpy as np
+    n1, n2 = inst["ncomps"]; n = n1 + n2
+    spec = {"kind": "cell", "parents": [-1, 0], "ncomps": [n1, n2]}
+    hs = np.array([env["h1"]] * n1 + [env["h2"]] * n2)
+    gl, el = 1e-4, -70.0
+    xc = np.cumsum(hs) - hs / 2
+    v = -70.0 + 20.0 * np.cos(xc / xc[-1] * 2.3) + 3.0 * (np.arange(n) % 2)
+    I = np.zeros(n); I[0] = 0.002
+    vals = {"r": np.full(n, env["r"]), "L": hs, "ra": np.full(n, env["ra"]), "cm": np.full(n, env["cm"]), "gl": np.full(n, gl), "el": np.full(n, el), "v": v, "I": I}
+    x = np.asarray([float(z) for z in models.real_step(spec, vals, dtv, solver, vs)])
+    kappa = env["r"] * 1e7 / (2 * env["ra"] * env["cm"])
+    A = np.zeros((n, n))
+    for i in range(n - 1):
+        d = xc[i + 1] - xc[i]
+        A[i, i] -= kappa / (hs[i] * d); A[i, i + 1] += kappa / (hs[i] * d)
+        A[i + 1, i + 1] -= kappa / (hs[i + 1] * d); A[i + 1, i] += kappa / (hs[i + 1] * d)
+    area = 2 * float(models.PI) * env["r"] * hs
+    A -= np.diag(np.full(n, gl * 1000 / env["cm"]))
+    c = (I / area * 1e5 + gl * 1000 * el) / env["cm"]
+    Id = np.eye(n)
+    if solver == "bwd_euler":
+        ref = np.linalg.solve(Id - dtv * A, v + dtv * c)
+    elif solver == "crank_nicolson":
+        ref = np.linalg.solve(Id - dtv / 2 * A, (Id + dtv / 2 * A) @ v + dtv * c)
+    else:
+        ref = v + dtv * (A @ v + c)
+    dev = float(np.max(np.abs(x - ref) / (1 + np.abs(ref))))
+    return dev > 1e-7, {"max_rel_dev": dev, "real": [float(z) for z in x], "reference": [float(z) for z in ref], "inputs": {k: [float(z) for z in v_] for k, v_ in vals.items()}, "dt": dtv, "env": env}
+
+
 def families():
     quick = harness.tier() == "quick"
     insts = []
@@ -199,6 +312,9 @@ def families():
             insts.append({"what": "fixed_point", "solver": solver, "voltage_solver": vs})
     for n in ((3, 4, 5) if quick else (3, 4, 5, 6, 8)):
         insts.append({"what": "cable", "n": n, "solver": "fwd_euler", "voltage_solver": "jaxley.thomas"})
+    for ncomps in (((1, 1), (2, 2), (2, 3)) if quick else ((1, 1), (2, 2), (2, 3), (3, 1), (4, 4), (1, 5))):
+        for solver, vs in (("bwd_euler", "jaxley.thomas"), ("bwd_euler", "jaxley.stone"), ("bwd_euler", "jax.sparse"), ("crank_nicolson", "jaxley.thomas")):
+            insts.append({"what": "junction", "ncomps": list(ncomps), "solver": solver, "voltage_solver": vs})
     return insts
 
 
@@ -210,12 +326,14 @@ def main():
     cov = {
         "explanation": "z3 proves on the traced IR the algebraic facts from which the convergence orders follow: the one-step map of a compartment is v* + (v - v*) R(-dt a) with the scheme's "
                        "stability function R for every backend (pins the unit factors), the traced vector field on a uniform cable reproduces (r 1e7/(2 R_a c_m)) V'' exactly for cubic "
-                       "profiles at interior nodes and the sealed-end flux form at the ends, and v* is a fixed point under constant current. The Lax equivalence argument from there to "
+                       "profiles at interior nodes and the sealed-end flux form at the ends, v* is a fixed point under constant current, and a uniform cable cut into two branches with different "
+                       "compartment lengths is coupled across the cut by the series conductance of the two half-compartments (the conservative flux form on the non-uniform grid). The Lax equivalence argument from there to "
                        "'order 1/2 in dt, order 2 in compartment length', and the analytic input/transfer-resistance comparison, are outside the solver.",
         "obligations": rep.stats["queries"], "discharged": rep.stats["unsat"],
         "evaluations": len(insts), "distinct_nontrivial": rep.counters.get("instances_encoded", 0),
-        "rule": "instances: stability function and fixed point per (solver, backend) on a compartment; cubic-consistency per cable length n",
-        "bounds": {"cable": "n <= 5 quick / <= 8 thorough compartments, uniform parameters, symbolic spacing h", "polynomial degree": 3},
+        "rule": "instances: stability function and fixed point per (solver, backend) on a compartment; cubic-consistency per cable length n; junction of a uniform cable cut into two branches per (ncomps, solver, backend)",
+        "bounds": {"cable": "n <= 5 quick / <= 8 thorough compartments, uniform parameters, symbolic spacing h", "polynomial degree": 3,
+                   "junction": "one cut, ncomps (1,1),(2,2),(2,3) quick / up to (4,4),(1,5) thorough, symbolic r, h1, h2, R_a, c_m > 0: the traced branch-point terms give the series conductance kappa/(h_i (h1+h2)/2) across the cut and kappa/h^2 inside each branch (J), and the step solves the rows assembled from those nodes (L2)"},
         "outside": ["the limit itself (refinement ladders)", "non-uniform cables", "rounding"],
     }
     return rep.finish(cov, assumptions=["exact real arithmetic", "Lax equivalence theorem (consistency + stability => convergence) is trusted mathematics", "stability is taken from C02"])
